@@ -188,6 +188,10 @@ def run_property(prop_id: str, tier: str, seed: int, procs: int | None = None) -
             spurious.append(f"replay raised {type(e).__name__}: {e} for {cex['label']}")
             continue
         if msg is None:
+            # in-process state (caches filled by earlier replays in this interpreter) can mask a history-dependent defect:
+            # give the counterexample one more chance in a fresh interpreter before calling it spurious
+            msg = _replay_in_fresh_process(prop_id, job, cex)
+        if msg is None:
             spurious.append(f"counterexample does not reproduce on the real code: {cex['label']} {cex['obligation']} {cex['inputs']}")
             continue
         key = msg.split("|")[0].strip()
@@ -250,12 +254,38 @@ def run_property(prop_id: str, tier: str, seed: int, procs: int | None = None) -
     return EXIT_OK
 
 
+def _replay_in_fresh_process(prop_id, job, cex):
+    import subprocess
+    import tempfile
+
+    with tempfile.NamedTemporaryFile("w", suffix=".json", delete=False, dir=str(VERIF)) as f:
+        json.dump(dict(property=prop_id, job=job, inputs=cex["inputs"], obligation=cex["obligation"], message="", notes=cex.get("notes", {})), f, default=_js)
+        path = f.name
+    try:
+        p = subprocess.run([sys.executable, "-W", "ignore", str(VERIF / "check.py"), prop_id, "--replay", path],
+                           env=dict(os.environ, VERIF_IN_VENV="1"), capture_output=True, text=True, timeout=900, cwd=str(VERIF))
+        lines = p.stdout.splitlines()
+        for i, l in enumerate(lines):
+            if l.startswith("VIOLATION") and i + 1 < len(lines):
+                return lines[i + 1].strip()
+    except Exception:
+        return None
+    finally:
+        try:
+            os.remove(path)
+        except OSError:
+            pass
+    return None
+
+
 def _confirms(mod, prop_id, cexs, jobs) -> bool:
     known = {(k["property"], k["key"]) for k in load_known().get("known", [])}
     for cex in cexs:
         try:
             job = _job_of(cex, jobs)
             msg = mod.HARNESSES[job["h"]]["replay"](job, cex["inputs"], cex.get("notes", {}))
+            if msg is None:
+                msg = _replay_in_fresh_process(prop_id, job, cex)
         except Exception:
             continue
         if msg is not None and (prop_id, msg.split("|")[0].strip()) not in known:
@@ -288,6 +318,8 @@ def _js(o):
 def replay_file(path: str) -> int:
     d = json.loads(Path(path).read_text())
     mod = _load(d["property"])
+    if hasattr(mod, "warmup"):
+        mod.warmup()
     h = mod.HARNESSES[d["job"]["h"]]
     msg = h["replay"](d["job"], d["inputs"], d.get("notes", {}))
     if msg is None:
